@@ -28,13 +28,14 @@ add("C20", "other",
     "equals the closed-form nearest point A + clamp(t)(B-A), the returned distance is the distance to that point, and (lemma "
     "nearest-is-minimal) that point minimises the distance over the whole segment; proj_polyligne returns the minimum over all "
     "non-skipped segments with the index of the carrying segment (loop invariant). Vertical segments are case-split into their own "
-    "obligations (known finding).",
-    "IEEE rounding and the wrappers mapOnTrack/__projOnTrack: all integer segments in [0,3]^2 x half-integer queries, all 3-vertex "
+    "obligations (known finding). mapping.__projOnTrack (the wrapper map-matching uses, with Track.getX / getY): a new point at the nearest "
+    "point of the carrying segment of the track's 2-D polyline, the distance to it, minimal over all non-skipped segments.",
+    "IEEE rounding and the wrapper mapOnTrack: all integer segments in [0,3]^2 x half-integer queries, all 3-vertex "
     "polylines on small grids, random polylines 2..8 vertices with oblique/horizontal/vertical/zero-length segments in dyadic, "
     "decimal, offset and raw-float coordinates; queries beside/beyond/on/at a vertex/far.",
     ENC + "math.sqrt trusted (r >= 0, r*r == x). KNOWN FINDING C20-vertical-segment: obligations *[vertical] fail / are undecided "
     "and are reported as KNOWN-FINDING, not discharged. proj_polyligne's skip test (L1 length < 1e-16) is taken as the definition "
-    "of a degenerate segment; at least one segment must be non-degenerate. mapOnTrack wrappers are bounded only.")
+    "of a degenerate segment; at least one segment must be non-degenerate. mapOnTrack over a whole track is bounded only.")
 
 
 DED = {
@@ -157,14 +158,15 @@ DED["C07"] = ("Network.run_routing_backward under C06's certificate (predecessor
               "forward loop.",
               "every GEOMETRY clause (edge polylines chained end to end, oriented along the travel, junction vertices not repeated, starting at the "
               "source's position) is bounded only: Track.copy / reverse / > / + are opaque in this contract; termination of the walk is not proved.")
-DED["C02"] = ("38 operator classes against their documented pointwise definitions written independently of the code (Adder, Substracter, "
+DED["C02"] = ("40 operator classes against their documented pointwise definitions written independently of the code (Adder, Substracter, "
               "Multiplier, Divider with x/0 = NaN, Above, Below, PointwiseEqualer; ScalarAdder, ScalarSubstracter, ScalarRevSubstracter, "
               "ScalarMuliplier, Scalar(Rev)Below / Above; Differentiator, Forward / Backward / Centered / SecondOrder finite differences with "
               "NaN at the ends; Inverter, Square, Diode, Rectifier, Sign, Identity, Inverser, Thresholder through the generic APPLY loop and their "
               "own lambda; Shift (y(t) = x(t-k), NaN outside), ShiftRight, ShiftLeft, ShiftRev; ScalarDivider, ScalarRevDivider): for every track "
               "size and every value incl. NaN and zeros the returned list holds the documented value at every index, is stored under the "
               "output name (created if absent), and every other column, coordinate and observation is unchanged. Read-only aggregates Sum, "
-              "Averager (folds over the values that are numbers), Min, Max (38 operator classes in all).",
+              "Averager (folds over the values that are numbers), Min, Max; Reverser and Log, which store their result through the bracket "
+              "assignment track[name] = list (contract of Track.__setitem__, C01) (40 operator classes in all).",
               "the expression parser (makeRPN, string rewriting, precedence / associativity / parentheses), __evaluateRPN / __applyOperation "
               "dispatch, '=' handling, circular shifts, powers, modulo, transcendental functions and the remaining aggregates: bounded only "
               "(unbounded string recursion is outside any contract within reach). 1/x operators require non-zero inputs (ZeroDivisionError "
@@ -172,10 +174,16 @@ DED["C02"] = ("38 operator classes against their documented pointwise definition
 DED["C10"] = ("mapping.__distToNode: the distances from the matched point to the edge's source and target nodes are abs_curv[i] + |g[i] - p| and "
               "abs_curv[last] - abs_curv[i+1] + |g[i+1] - p| (the edge geometry's curvilinear abscissa, proved cumulative by C17's computeAbsCurv "
               "contract); lemma on-segment-split: for a point on segment i the two add up to abs_curv[last], the edge's planimetric length. "
-              "Callee contracts of the composition are proved under C08 (neighbourhood candidates), C20 (projection) and C09 (decoding picks one "
-              "candidate per epoch).",
-              "the matching loop of __mapOnNetwork (candidate search, radius test, unmatched flag, HMM call, several tracks per call) and the "
-              "frame on positions / timestamps are bounded only.")
+              "The candidate loop of __mapOnNetwork as a REGION contract (spatial index opaque and trusted: it returns edge positions): one "
+              "non-empty row of states per observation; every state is either the unmatched marker (the observation's own position, -1, -1, -1), "
+              "alone in its row, or (p, e, d0, d1) where e is an edge position returned by the index, p is the nearest point of a non-degenerate "
+              "segment v of that edge's geometry to the observation (mapping.__projOnTrack, proved under C20) at squared distance below "
+              "search_radius^2, and d0, d1 are __distToNode's distances for that segment; positions of the track and of the network are not "
+              "written. Callee contracts of the composition are proved under C08 (neighbourhood coverage), C20 (projection) and C09 (decoding "
+              "picks one listed candidate per epoch).",
+              "the statements of __mapOnNetwork around the region (obs_noise feature, module globals, HMM set-up and decoding call), storing the "
+              "decoded state, several tracks per call: bounded only. ASSUMED region preconditions: every edge geometry is a well-formed track of "
+              ">= 2 numeric fixes carrying abs_curv with a non-degenerate segment; squared distances below 1e600.")
 DED["C05"] = ("interpolation.__resampleTemporal: the resampling loop as a REGION contract (cut from the real function on every run), with strictly "
               "increasing track timestamps T and non-decreasing requested instants: exactly the requested instants t with T[0] < t <= T[last] "
               "produce an observation, one each and in order (ghost index lists), none is dropped; for an arbitrary produced observation the "
